@@ -178,22 +178,47 @@ def lu(prog: Program, rep, x: ExcFlow) -> None:
     sv = c.methods["solve"]
     fs = facts_for(sv)
     rs = returns_of(sv)
-    if len(rs) != 1:
-        raise AnalysisError("LUSolver.solve: expected one return")
-    v = fs.resolved(rs[0], rs[0].value)
-    ok_call = isinstance(v, ast.Call) and U(v.func) == "self.solver.solve" and v.args and U(v.args[0]) == "rhs"
-    tk = kwarg(v, "trans") if isinstance(v, ast.Call) else None
-    rep.check(ok_call, "lu-solve-wiring", sv.qualname, short(rs[0]), "LUSolver.solve back-solves the given right-hand side with the stored factorisation", sv.loc(rs[0]))
-    good = tk is not None
+    if not rs:
+        raise AnalysisError("LUSolver.solve: no return")
+    calls_ok = True
+    for r in rs:
+        for v in phi_alternatives(fs.resolved(r, r.value)):
+            ok_call = isinstance(v, ast.Call) and U(v.func) == "self.solver.solve" and v.args and U(v.args[0]) == "rhs" and kwarg(v, "trans") is not None
+            calls_ok = calls_ok and bool(ok_call)
+            rep.check(ok_call, "lu-solve-wiring", sv.qualname, short(r), "LUSolver.solve back-solves the given right-hand side with the stored factorisation", sv.loc(r))
+    good = calls_ok
     table = []
-    if tk is not None:
+    if calls_ok:
+        from .common import UnknownAtom, fact_holds
         for trans, t in itertools.product((False, True), (False, True) if flag_attr else (False,)):
             env = {"trans": trans}
             if flag_attr:
                 env[f"self.{flag_attr}"] = t
+
+            def val(at, env=env):
+                op, l, r_ = at
+                if op in ("truthy", "falsy") and r_ is None:
+                    try:
+                        b = bool(_bool_eval(ast.parse(l, mode="eval").body, env))
+                    except (KeyError, SyntaxError) as ex:
+                        raise UnknownAtom(str(ex))
+                    return b if op == "truthy" else not b
+                try:
+                    pyop = {"==": "==", "!=": "!=", "is": "is", "isnot": "is not"}.get(op)
+                    if pyop is None:
+                        raise UnknownAtom(str(at))
+                    e_ = ast.parse(f"({l}) {pyop} ({r_})", mode="eval").body
+                    return bool(_bool_eval(e_, env))
+                except (KeyError, SyntaxError) as ex:
+                    raise UnknownAtom(str(ex))
             try:
-                s_ = _bool_eval(tk, env)
-            except KeyError as ex:
+                taken = [r for r in rs if all(fact_holds(f, val) for f in fs.at(r).facts)]
+                if len(taken) != 1:
+                    raise AnalysisError(f"LUSolver.solve: {len(taken)} returns reachable for trans={trans}")
+                v = fs.resolved(taken[0], taken[0].value)
+                s_ = _bool_eval(kwarg(v, "trans") if isinstance(v, ast.Call) else v, env) if not isinstance(v, ast.IfExp) else \
+                    _bool_eval(ast.IfExp(test=v.test, body=kwarg(v.body, "trans"), orelse=kwarg(v.orelse, "trans")), env)
+            except (KeyError, UnknownAtom) as ex:
                 raise AnalysisError(f"LUSolver.solve: cannot evaluate the SuperLU flag expression ({ex})")
             want = "T" if (trans != t) else "N"
             table.append((trans, t, s_, want))
